@@ -16,6 +16,10 @@ pub struct Summary {
     pub per_op: BTreeMap<String, u64>,
     pub notes: BTreeMap<String, u64>,
     pub mismatch_by_variant: BTreeMap<String, u64>,
+    /// behaviour that the specification also models but that no listed property states
+    /// (reported, never a violation)
+    pub extra_checks: u64,
+    pub extra_mismatches: Vec<V>,
     pub cur_line: u64,
     pub cur: V,
 }
@@ -41,6 +45,18 @@ impl Summary {
             if *c <= 5 && self.mismatches.len() < KEEP {
                 self.mismatches.push(json!({"line": self.cur_line, "variant": variant,
                     "got": got, "exp": exp, "rec": self.cur}));
+            }
+        }
+    }
+    /// compare an observation that lies outside the listed properties (specification growth):
+    /// a disagreement is reported as EXTRA-MISMATCH and never counted as a property violation
+    pub fn extra(&mut self, variant: &str, got: V, exp: &V) {
+        self.extra_checks += 1;
+        self.op(&format!("extra:{variant}"));
+        if &got != exp {
+            self.note(&format!("EXTRA-MISMATCH (outside the listed properties) {variant}"));
+            if self.extra_mismatches.len() < 20 {
+                self.extra_mismatches.push(json!({"line": self.cur_line, "variant": variant, "got": got, "exp": exp, "rec": self.cur}));
             }
         }
     }
@@ -74,6 +90,7 @@ impl Summary {
             "mismatches": self.mismatches, "ref_mismatches": self.ref_mismatches,
             "per_op": self.per_op, "notes": self.notes,
             "mismatch_by_variant": self.mismatch_by_variant,
+            "extra_checks": self.extra_checks, "extra_mismatches": self.extra_mismatches,
         })
     }
 }
